@@ -846,7 +846,7 @@ fn case_for_index(i: u64, base_seed: u64, fx: &Fixtures, sweep: &[Case]) -> Case
     if i >= SWEEP_BASE {
         sweep[(i - SWEEP_BASE) as usize].clone()
     } else {
-        let run_seed = rng::mix(base_seed, rng::domain(PROP), i);
+        let run_seed = rng::mix(base_seed, simcore::stage_domain(PROP), i);
         gen_case(&mut Rng::new(run_seed), fx)
     }
 }
@@ -958,10 +958,10 @@ pub fn main(args: &Args) -> i32 {
         let fx = Fixtures::load();
         let sweep = sweep_cases(&fx);
         let c = case_for_index(idx, base_seed, &fx, &sweep);
-        let path = format!("{}/replays/{PROP}-{}-{}.json", simcore::verif_dir(), base_seed, idx);
+        let path = simcore::replay_path(PROP, base_seed, idx);
         simcore::write_json_atomic(
             &path,
-            &json!({"property": PROP, "engine": "sim_io/c12 (SimTransport + SimReader)", "base_seed": base_seed, "run_index": idx,
+            &json!({"property": PROP, "profile": simcore::profile_name(), "engine": "sim_io/c12 (SimTransport + SimReader)", "base_seed": base_seed, "run_index": idx,
                     "case": c.to_json(), "signature": sig, "event_hash": "",
                     "detail": "the process died inside a library call while executing this case (not minimised)"}),
         );
@@ -977,7 +977,7 @@ pub fn main(args: &Args) -> i32 {
     let workers = args.num("--workers").map(|w| w as usize).unwrap_or_else(simcore::par::workers_from_env);
     let runs = args.num("--runs").unwrap_or(match tier {
         Tier::Quick => 300_000,
-        Tier::Thorough => 30_000_000,
+        Tier::Thorough => 30_000_000 / if simcore::debug_stage() { 10 } else { 1 },
     });
     let det_n = match tier {
         Tier::Quick => 200.min(runs),
@@ -986,9 +986,10 @@ pub fn main(args: &Args) -> i32 {
     let fx = Fixtures::load();
     let sweep = sweep_cases(&fx);
     println!(
-        "sim_io property={PROP} tier={} VERIF_SEED={base_seed} seeded_runs={runs} systematic_sweep={} workers={workers}",
+        "sim_io property={PROP} tier={} VERIF_SEED={base_seed} seeded_runs={runs} systematic_sweep={} workers={workers}{}",
         tier.name(),
-        sweep.len()
+        sweep.len(),
+        if simcore::debug_stage() { " stage=debug-profile" } else { "" }
     );
     let t0 = std::time::Instant::now();
     let total = runs + sweep.len() as u64;
@@ -1072,10 +1073,10 @@ pub fn main(args: &Args) -> i32 {
         let (cm, info) = minimise(&c, sig);
         let ex = execute(&cm);
         let detail = ex.verdict.as_ref().map(|v| v.1.clone()).unwrap_or_default();
-        let path = format!("{}/replays/{PROP}-{}-{}.json", simcore::verif_dir(), base_seed, idx);
+        let path = simcore::replay_path(PROP, base_seed, *idx);
         simcore::write_json_atomic(
             &path,
-            &json!({"property": PROP, "engine": "sim_io/c12 (SimTransport + SimReader)", "base_seed": base_seed, "run_index": idx,
+            &json!({"property": PROP, "profile": simcore::profile_name(), "engine": "sim_io/c12 (SimTransport + SimReader)", "base_seed": base_seed, "run_index": idx,
                     "case": cm.to_json(), "signature": sig, "detail": detail, "event_hash": format!("{:016x}", ex.event_hash), "minimisation": info,
                     "delivered_text": String::from_utf8_lossy(&delivered(&cm.events)[..delivered(&cm.events).len().min(200)])}),
         );
@@ -1143,7 +1144,7 @@ pub fn main(args: &Args) -> i32 {
             "sampled, not exhaustive (the single- and double-split sweep over small documents is exhaustive for its own finite set)"
         ],
     });
-    simcore::write_json_atomic(&format!("{}/evidence/{PROP}.json", simcore::verif_dir()), &ev);
+    simcore::write_json_atomic(&simcore::evidence_path(PROP), &ev);
     println!(
         "runs={} read_calls={} traces={} nontrivial={} boundary_sigs={} abs_checked={} violating_runs={} wall={:.1}s digest={:016x}",
         acc.runs, acc.read_calls, traces, nontrivial, bsigs, acc.abs_checked, acc.violations.total(), wall, acc.digest
